@@ -7,8 +7,8 @@
      cel/functions.py    _overlay / _deep_overlay (:229-259)
      value_function/reconcile.py          reconcile_value_function (:11-62)
      resource_function/reconcile/__init__.py
-                         _construct_resource_template (:433-503),
-                         _materialize_from_overlays (:506-603),
+                         _construct_resource_template (:433-508),
+                         _materialize_from_overlays (:511-603),
                          the evaluate_overlay + forced-overlay head of
                          _create_api_resource (:606-660) and the
                          `if crud_config.overlays:` dispatch (:275-291)
